@@ -222,7 +222,10 @@ func createManagerKeyScope(km db.Bucket, root *hdkeychain.ExtendedKey,
 	}
 
 	// check for repeated seed
-	value, _ := accountIDBucket.Get([]byte(accountID))
+	value, err := accountIDBucket.Get([]byte(accountID))
+	if err != nil {
+		return nil, err
+	}
 	if value != nil {
 		return nil, ErrDuplicateSeed
 	}
@@ -859,6 +862,9 @@ func loadAddrManager(amBucket db.Bucket, pubPassphrase []byte, net *config.Param
 
 	// get child number
 	internalChildNum, externalChildNum, err := fetchChildNum(amBucket)
+	if err != nil {
+		return nil, err
+	}
 
 	branchInfo := &branchInfo{
 		internalBranchPub: internalBranchPub,
